@@ -18,7 +18,7 @@ EXPLANATION = (
     "puts overrides after base options; C27.2 scheduler-imposed options are created only in _evaluate_apply (cache downgrade, provenance inheritance) "
     "and passed as Job(options=...); the post-evaluation cache_scope=NONE override is guarded by `not recording_provenance()`; C27.3 export_options only "
     "ever grows by unions that include the parent's set and get_export_options filters on it; C27.4 _exec_job is reached only through the Promise.all "
-    "that contains the chain assigning job.eval_options from the evaluated options."
+    "that contains the chain assigning job.eval_options from the evaluated options. C27.5 every `self.__class__(...)` clone inside Task forwards all option-carrying constructor arguments (task_options_base, task_options_override, export_options, hash_includes, identity fields)."
 )
 
 SCHED = "redun/scheduler.py"
@@ -278,3 +278,30 @@ def run(ctx):
     r4.check(ok, f"{m.rel}:Scheduler._evaluate_apply:exec-after-options", "_exec_job can be reached before the option chain (which assigns job.eval_options) has completed", m.rel, ea.lineno)
     callers = {(mod.rel, mod.enclosing_qual(c)) for mod, c in repo.all_calls(lambda c: last_attr(c) == "_exec_job")}
     r4.check(callers == {(SCHED, "Scheduler._evaluate_apply.args_then"), (SCHED, "Scheduler._check_jobs_pending_limits")}, f"{m.rel}:Scheduler._exec_job:callers", f"_exec_job is called from {sorted(callers)}", m.rel, 0)
+
+    # ---- C27.5 task clones carry all option state ------------------------------------------
+    r5 = ctx.rule("C27.5", "every method that clones a Task forwards all option-carrying constructor arguments", floor=2)
+    init = tm.func("Task.__init__")
+    ctor = [a.arg for a in init.args.args[2:]] + [a.arg for a in init.args.kwonlyargs]  # after self, func
+    state = [p for p in ctor if p in ("task_options_base", "task_options_override", "export_options", "hash_includes", "name", "namespace", "version", "compat", "script", "source")]
+    if not {"task_options_base", "task_options_override", "export_options"} <= set(state):
+        raise AnalysisError(f"Task.__init__ parameters {ctor} no longer include the option fields", "Task.__init__")
+    nclone = 0
+    for q, fn in tm.funcs.items():
+        if not q.startswith("Task.") or q.count(".") != 1:
+            continue
+        for c in calls_in(fn):
+            if src(c.func) in ("self.__class__", "type(self)"):
+                nclone += 1
+                kws = {k.arg for k in c.keywords}
+                missing = [p for p in state if p not in kws]
+                r5.check(
+                    not missing,
+                    f"{tm.rel}:{q}:clone",
+                    f"{q} clones the task with self.__class__(...) but does not forward {missing}: the clone silently falls back to the constructor default "
+                    "(e.g. exported option names set by an earlier .export_options() are lost when .options() is chained after it, so the options are applied to this job but no longer inherited by its children)",
+                    tm.rel,
+                    c.lineno,
+                )
+    if nclone < 2:
+        raise AnalysisError(f"only {nclone} Task clone sites found", "Task")
